@@ -32,9 +32,10 @@ type Term struct {
 	b    bool     // bool const
 	ref  string   // how this term is referenced in SMT text
 	// metadata (sound over-approximations)
-	bits   int  // if >0: |value| < 2^bits
-	nonneg bool // value >= 0
-	pos    bool // value > 0
+	bits       int  // if >0: |value| < 2^bits
+	nonneg     bool // value >= 0
+	pos        bool // value > 0
+	posDivisor bool // div term whose divisor is known positive on the path
 }
 
 func (t *Term) IsConst() bool { return t.op == "const" }
@@ -267,7 +268,39 @@ func (c *TermCtx) floorDivPos(a, b *Term) *Term {
 	t := c.mk("div", SInt, a, b)
 	t.bits = a.bits
 	t.nonneg = a.nonneg
+	if !b.IsConst() {
+		t.posDivisor = true // created under the guarantee b > 0 (see divLemmas)
+	}
 	return t
+}
+
+// divLemmas returns the defining inequalities b*q <= a < b*q + b of every
+// division by a symbolic positive divisor occurring in t. They are tautologies
+// on the path (b > 0 there) and are offered to the solver only as a second
+// attempt at a query it could not decide (asserting them up front slows every
+// other query down by an order of magnitude).
+func (c *TermCtx) divLemmas(ts []*Term) []*Term {
+	seen := map[*Term]bool{}
+	var out []*Term
+	var walk func(t *Term)
+	walk = func(t *Term) {
+		if seen[t] {
+			return
+		}
+		seen[t] = true
+		for _, a := range t.args {
+			walk(a)
+		}
+		if t.op == "div" && t.posDivisor {
+			a, b := t.args[0], t.args[1]
+			bq := c.mk("*", SInt, b, t)
+			out = append(out, c.mk("<=", SBool, bq, a), c.mk("<", SBool, a, c.mk("+", SInt, bq, b)))
+		}
+	}
+	for _, t := range ts {
+		walk(t)
+	}
+	return out
 }
 
 func (c *TermCtx) modPos(a, b *Term) *Term {
